@@ -55,7 +55,10 @@ func c06Setup(prm c06Params) func(c *fw.Ctx, name string) explore.Setup {
 				conn := mkConn(st.p, k)
 				bg := vctx.Background()
 				// the peer echoes the Close frame it sees with the same payload
-				w.GoHarness("peer", false, func() {
+				if prm.Mode != "orders" {
+					w.GoHarness("peer", false, c06Peer(st, k, prm))
+				}
+				_ = func() {
 					var cf frame.Frame
 					if !st.p.WaitOut("close-frame", func(out []byte) bool {
 						f, ok := firstClose(out)
@@ -69,7 +72,7 @@ func c06Setup(prm c06Params) func(c *fw.Ctx, name string) explore.Setup {
 					if prm.PeerEOF {
 						st.p.SendEOF()
 					}
-				})
+				}
 				switch prm.Mode {
 				case "echo-reader":
 					w.GoHarness("reader", true, func() {
@@ -134,6 +137,24 @@ func c06Setup(prm c06Params) func(c *fw.Ctx, name string) explore.Setup {
 				}
 				c06Oracle(c, w, name, prm, st)
 			}
+		}
+	}
+}
+
+func c06Peer(st *c06State, k connCfg, prm c06Params) func() {
+	return func() {
+		var cf frame.Frame
+		if !st.p.WaitOut("close-frame", func(out []byte) bool {
+			f, ok := firstClose(out)
+			cf = f
+			return ok
+		}) {
+			return
+		}
+		st.echoed = true
+		st.p.Send(peerFrame(k, frame.Frame{Fin: true, Opcode: frame.OpClose, Payload: cf.Payload}))
+		if prm.PeerEOF {
+			st.p.SendEOF()
 		}
 	}
 }
